@@ -1,4 +1,5 @@
 #![warn(missing_docs)]
+#![cfg_attr(feature = "verif", allow(missing_docs))]
 
 //! `uflow` is a non-blocking, connection-based layer over UDP that provides an ordered and
 //! drop-tolerant packet streaming interface for real-time applications (e.g. games). It manages
@@ -264,6 +265,11 @@ mod half_connection;
 mod frame;
 mod packet_id;
 mod udp_frame_sink;
+
+/// Verification hooks (virtual clock, socket and RNG shims; internal re-exports). Only present
+/// with the `verif` feature.
+#[cfg(feature = "verif")]
+pub mod verif;
 
 /// Server-related connection objects and parameters.
 pub mod server;
